@@ -17,7 +17,7 @@ LIBSRCS = ["goldilocks_base_field.cpp", "goldilocks_cubic_extension.cpp"]
 # trials per overload and flavour
 TRIALS = {
     "quick": {"prod": 2000, "asan": 2000, "prod512": 2000, "asan512": 2000},
-    "thorough": {"prod": 1000000, "asan": 500000, "prod512": 1000000, "asan512": 500000},
+    "thorough": {"prod": 3000000, "asan": 1000000, "prod512": 3000000, "asan512": 1000000},
 }
 SEED_OFFSET = {"prod": 0, "asan": 1000003, "prod512": 2000003, "asan512": 3000017}
 
